@@ -8,3 +8,4 @@ import PlasVerif.Properties.C08
 import PlasVerif.Properties.C15
 import PlasVerif.Properties.C07
 import PlasVerif.Properties.C16
+import PlasVerif.Properties.C20
